@@ -20,6 +20,8 @@ def run(rep: core.Report):
     rep.rule("R12b", "Grueneisen coefficient: gamma = -<e|dD|e> / (dV/V) / (2 l), with dD = D(V+) - D(V-) and the strain dV/V from the supplied volumes", 4)
     rep.rule("R12c", "every attribute/method used on an object constructed from a repository class resolves in that class (documented access paths exist)", 10)
 
+    rep.rule("R12d", "band connection: on every path through the q-point loop on which one per-band result is reordered by band_order, every per-band result stored for that q-point (eigenvalues, eigenvectors, <e|dD|e>, group velocities) is reordered by it", 2)
+    _r12d(rep)
     # R12a -------------------------------------------------------------
     fn = core.find_def(GV, "GroupVelocity._calculate_group_velocity_at_q")
     lam, fac = sp.Symbol("lam", positive=True), sp.Symbol("factor", positive=True)
@@ -157,6 +159,75 @@ def _attr_resolution(rep, files, rule):
         raise AnalysisError(f"{rule}: only {n} attribute uses on locally constructed repository objects found")
 
 
+PER_BAND_SOURCES = ("np.linalg.eigh", "np.linalg.eigvalsh", "rotate_eigenvectors")
+
+
+def _band_paths(fn, perm="band_order"):
+    """For each path through the loop over q-points: {list name: (domain, node)} of per-band values appended."""
+    loops = [lp for lp in ast.walk(fn) if isinstance(lp, ast.For) and any(isinstance(x, ast.Name) and x.id == perm for x in ast.walk(lp))]
+    if not loops:
+        return None
+    lp = loops[0]
+    perband0 = set()
+    for s in ast.walk(fn):
+        if isinstance(s, ast.Assign) and isinstance(s.value, ast.Attribute) and s.value.attr == "group_velocities":
+            perband0 |= {x.id for x in ast.walk(s.targets[0]) if isinstance(x, ast.Name)}
+
+    def uses_perm(e):
+        return any(isinstance(x, ast.Subscript) and any(isinstance(y, ast.Name) and y.id == perm for y in ast.walk(x.slice)) for x in ast.walk(e))
+
+    def walk(stmts, env, perband, apps):
+        # returns list of (env, perband, apps)
+        states = [(dict(env), set(perband), dict(apps))]
+        for s in stmts:
+            nxt = []
+            for env, perband, apps in states:
+                if isinstance(s, ast.If):
+                    nxt += walk(s.body, env, perband, apps)
+                    nxt += walk(s.orelse, env, perband, apps)
+                    continue
+                if isinstance(s, ast.Assign):
+                    names_v = {x.id for x in ast.walk(s.value) if isinstance(x, ast.Name)}
+                    src_call = any(isinstance(c, ast.Call) and core.src(c.func) in PER_BAND_SOURCES for c in ast.walk(s.value))
+                    tg = [x.id for t in s.targets for x in ast.walk(t) if isinstance(x, ast.Name) and isinstance(x.ctx, ast.Store)]
+                    if src_call or names_v & perband:
+                        if not (len(tg) == 1 and tg[0] == perm):
+                            perband |= set(tg)
+                            conn = uses_perm(s.value) or any(env.get(x) == "conn" for x in names_v if x in perband)
+                            for t in tg:
+                                env[t] = "conn" if conn else "raw"
+                elif isinstance(s, ast.Expr) and isinstance(s.value, ast.Call) and isinstance(s.value.func, ast.Attribute) and s.value.func.attr == "append" and s.value.args:
+                    a = s.value.args[0]
+                    names_a = {x.id for x in ast.walk(a) if isinstance(x, ast.Name)}
+                    if names_a & perband:
+                        conn = uses_perm(a) or any(env.get(x) == "conn" for x in names_a if x in perband)
+                        apps[core.src(s.value.func.value)] = ("conn" if conn else "raw", s)
+                nxt.append((env, perband, apps))
+            states = nxt
+        return states
+
+    return walk(lp.body, {}, perband0, {})
+
+
+def _r12d(rep):
+    for rel, qn in ((GR, "GruneisenBase._set_gruneisen"), ("phonopy/phonon/band_structure.py", "BandStructure._solve_dm_on_path")):
+        fn = core.find_def(rel, qn)
+        paths = _band_paths(fn)
+        if not paths:
+            raise AnalysisError(f"R12d: no q-point loop using band_order in {qn}")
+        conn_paths = [apps for _, _, apps in paths if any(d == "conn" for d, _ in apps.values())]
+        if not conn_paths:
+            raise AnalysisError(f"R12d: no path of {qn} reorders a per-band result by band_order (anchor vanished)")
+        bad = None
+        for apps in conn_paths:
+            for lst, (d, node) in apps.items():
+                if d != "conn":
+                    done = sorted(k for k, (dd, _) in apps.items() if dd == "conn")
+                    bad = (node, f"'{core.norm(core.src(node), 60)}' stores the per-band values in eigh order while {done} are reordered by band_order on the same path: after a band crossing a band's value is paired with another band's eigenvalue")
+        lists = sorted({k for apps in conn_paths for k in apps})
+        rep.instance("R12d", rel, qn, f"{len(paths)} paths, {len(conn_paths)} with band connection; per-band lists {lists}", bad is None, bad[1] if bad else "", line=bad[0].lineno if bad else fn.lineno)
+
+
 def selftest():
     V = []
     b = lambda name, file, old, new, rule, expect="", **kw: V.append(dict(name=name, kind="break", file=file, old=old, new=new, rule=rule, expect=expect, **kw))
@@ -168,5 +239,7 @@ def selftest():
     b("gruneisen sign", GR, "self._gruneisen = -edDe / self._delta_strain / self._eigenvalues / 2", "self._gruneisen = edDe / self._delta_strain / self._eigenvalues / 2", "R12b", "_gruneisen")
     b("gruneisen dD reversed", GR, "dD = self._get_dD(q, self._dynmat_minus, self._dynmat_plus)", "dD = self._get_dD(q, self._dynmat_plus, self._dynmat_minus)", "R12b", "_get_dD")
     b("access path to a missing attribute", GV, "    return gv.group_velocities[0]", "    return gv.group_velocity[0]", "R12c", "group_velocity")
+    b("edDe appended without band order", GR, "                edDe.append(edDe_at_q[band_order])", "                edDe.append(edDe_at_q)", "R12d", "_set_gruneisen")
+    b("group velocities on a band path not reordered", "phonopy/phonon/band_structure.py", "                    gv_on_path.append(gv[i][band_order])", "                    gv_on_path.append(gv[i])", "R12d", "_solve_dm_on_path")
     n("chain rule refactored", GV, "                gv[i, :] *= self._factor**2 / f / 2", "                gv[i, :] *= 0.5 * self._factor * self._factor / f")
     return V
